@@ -1,7 +1,7 @@
 --------------------------- MODULE RecorderTrace ---------------------------
 (* B2/B3 for C35.  A log recorded from the REAL recorder is read line by line:
 
-     start   a fresh recorder with the logged batch size
+     start   a fresh recorder with the logged batch size and the tables created up front
      step    one gate passage (process, label, table) — exactly one gate action of
              Recorder.tla (LockScope "fix"); an "ins" step carries the entry; "call" is the
              harness's own gate in front of Flush()/Close().  Taking the mutex is not
@@ -36,16 +36,18 @@ Entry == [id |-> Ev.id, tab |-> Ev.tab, loc |-> Ev.loc]
 Seen == inserted' = (IF Ev.l = "ins" THEN inserted \cup {Entry} ELSE inserted)
 Guard(p, lab, tb) ==
     /\ p \in Procs
-    /\ CASE lab = "ins" -> pc[p] = "idle" /\ tb \in Tables /\ Ev.loc \in Locs
+    /\ CASE lab = "ins" -> pc[p] = "idle" /\ tb \in made /\ Ev.loc \in Locs
          [] lab = "call" -> pc[p] = "idle"
+         [] lab = "create" -> pc[p] = "idle" /\ tb \in Tables \ (made \cup Making)
          [] lab = "fl_table" -> pc[p] = "fl_table" /\ mu = p /\ tb \in todo[p]
          [] OTHER -> lab \in FlushLabels \cup {"fl_check"} /\ pc[p] = lab /\ mu = p
 
-TStart == /\ Ev.e = "start" /\ MReset(Ev.batch) /\ inserted' = {} /\ div' = FALSE
+TStart == /\ Ev.e = "start" /\ MReset(Ev.batch, {Ev.init[i] : i \in DOMAIN Ev.init}) /\ inserted' = {} /\ div' = FALSE
           /\ UNCHANGED <<left, racy, sig, hist>>
 TStep  == /\ Ev.e = "step" /\ Impl /\ ~div /\ Quiet /\ Guard(Ev.p, Ev.l, Ev.tab)
           /\ \/ Ev.l = "ins" /\ RelIns(Ev.p, Entry)
              \/ Ev.l = "call" /\ Call(Ev.p)
+             \/ Ev.l = "create" /\ RelCreate(Ev.p, Ev.tab)
              \/ Ev.l = "fl_check" /\ FlCheck(Ev.p)
              \/ FlushStep(Ev.p, Ev.l, Ev.tab)
           /\ Seen /\ UNCHANGED <<left, racy, sig, hist, div>>
@@ -69,7 +71,7 @@ TEnd   == /\ Ev.e = "end" /\ (div \/ ~Impl \/ Quiet)
           /\ UNCHANGED <<vars, div>>
 (* a waiter takes the free mutex: not logged, position unchanged *)
 TSilent == /\ Impl /\ ~div /\ l <= TraceLen /\ Ev.e # "start"
-           /\ \E p \in Procs : AcqIns(p) \/ AcqFl(p)
+           /\ \E p \in Procs : AcqIns(p) \/ AcqFl(p) \/ AcqCreate(p)
            /\ UNCHANGED <<left, inserted, racy, sig, hist, l, div>>
 TNext == \/ l <= TraceLen /\ l' = l + 1 /\ (TStart \/ TStep \/ TLeave \/ TSkip \/ TPanic \/ TEnd)
          \/ TSilent
